@@ -128,12 +128,20 @@ bool gJudgeTopology = true;
 // thickness at which reciprocals overflow; property interpolation in a later Boolean then yields NaN
 // property values (0 * inf).  Only that signature, only when such an argument was generated.
 bool gSubnormalArg = false;
+// F46 also covers its second door: a source mesh made of zero-area triangles only (the flat "hull" of coplanar
+// points, F12) that carries normals; interpolating properties over a zero-area triangle divides 0 by 0
+bool DegenerateSource(const Manifold& src) {
+  if (src.Status() != Manifold::Error::NoError || src.IsEmpty()) return false;
+  Box b = src.BoundingBox();
+  double sc = b.Scale();
+  return src.NumDegenerateTris() > 0 || std::abs(src.Volume()) <= 1e-12 * sc * sc * sc;
+}
 struct Sticky {
   Outcome& o;
   // result of an op on `src`; err = the status that must be preserved as "an error"
   bool check(const Manifold& src, const Manifold& r, const char* op) {
     oracle::TopoReport tr = oracle::CheckManifold(r);
-    if (!tr.ok && gSubnormalArg && tr.sig == "topo:nonfinite") { o.known("F46-subnormal-argument-nan", "malformed:topo:nonfinite-subnormal-argument", std::string("after ") + op + ": " + tr.msg); return false; }
+    if (!tr.ok && tr.sig == "topo:nonfinite" && (gSubnormalArg || DegenerateSource(src))) { o.known("F46-subnormal-argument-nan", "malformed:topo:nonfinite-subnormal-argument", std::string("after ") + op + ": " + tr.msg); return false; }
     if (!tr.ok && gJudgeTopology) { o.fail(std::string("malformed:") + tr.sig, std::string("after ") + op + ": " + tr.msg); return false; }
     if (src.Status() != Manifold::Error::NoError && r.Status() == Manifold::Error::NoError) {
       o.fail("malformed:error-not-sticky", verif::fmt("%s of a Manifold with Status %d returned NoError", op, int(src.Status())));
